@@ -15,7 +15,9 @@ def stack_schedules(rng, props, n, full=False, modes=("interference", "interfere
             clients = [1, 2, 3, 4] if (hole or rng.random() < 0.5) else [1, 2, 3]
         timeout = 2 if mode != "interference" else 5
         dt = rng.choice([50, 100, 100])
-        cfg = {"clients": clients, "max_clients": 4, "timeout_s": timeout, "props": props, "allow_timeouts": mode == "silence"}
+        # half of the runs: exactly as many slots as clients (every handshake races for "the last free slot" at some point)
+        cfg = {"clients": clients, "max_clients": (len(clients) if rng.random() < 0.5 else 4), "timeout_s": timeout, "props": props,
+               "allow_timeouts": mode == "silence"}
         steps = []
         tag = [1]
 
